@@ -252,15 +252,55 @@ def r1(ctx):
         ctx.ok('C09.R1', fi, None, 'no-neighbour branch: own mesh')
     # call sites hand the geometric neighbour of that side
     cs = ctx.repo.func('core', 'Core._collect_sc_geom_params')
-    h = find_all('_which_asm_has_finer_mesh(asm_list[asm], adj)', cs.node)
-    adj = U.single_def(cs.node, 'adj')
-    ok = bool(h) and adj is not None and \
-        src(adj) == 'asm_list[self.asm_adj[asm][side] - 1]'
-    if ok:
-        g = U.guards(h[0][0])
-        ok = [(src(t), p) for t, p in g] == \
-            [('self.asm_adj[asm][side] - 1 >= 0', True)]
-    ctx.require(ok, 'C09.R1', cs, h[0][0] if h else cs.node,
+    calls = [c for c in walk_no_nested(cs.node) if isinstance(c, ast.Call)
+             and call_name(c) == '_which_asm_has_finer_mesh']
+    NB = 'asm_list[self.asm_adj[asm][side] - 1]'
+    GUARDS = ('self.asm_adj[asm][side] - 1 >= 0', 'self.asm_adj[asm][side] > 0',
+              'self.asm_adj[asm][side] >= 1',
+              'self.asm_adj[asm][side] - 1 > -1')
+
+    def guarded_by_neighbour(node):
+        return any(' '.join(src(t).split()) in GUARDS and p
+                   for t, p in U.guards(node))
+
+    def unguarded(node):
+        return not any(' '.join(src(t).split()) in GUARDS
+                       for t, p in U.guards(node))
+    ok = bool(calls)
+    saw_nb = False
+    for c in calls:
+        if len(c.args) < 1 or src(c.args[0]) != 'asm_list[asm]':
+            ok = False
+            continue
+        a1 = c.args[1] if len(c.args) > 1 else None
+        e = U.expand_locals(cs.node, a1, before=c.lineno, depth=2) \
+            if a1 is not None else None
+        if a1 is None or const(a1, 0) is None and isinstance(a1,
+                                                             ast.Constant):
+            # no neighbour handed: only where there is none
+            ok = ok and not guarded_by_neighbour(c)
+        elif isinstance(a1, ast.Name):
+            ds = [d for d in U.assigns_of(cs.node, a1.id)
+                  if isinstance(d, ast.Assign)]
+            vals = {}
+            for d in ds:
+                vals.setdefault(' '.join(src(d.value).split()), []).append(d)
+            for v, dl in vals.items():
+                if v == NB:
+                    saw_nb = True
+                    ok = ok and all(guarded_by_neighbour(d) for d in dl)
+                elif v == 'None':
+                    pass
+                else:
+                    ok = False
+            ok = ok and NB in vals and (guarded_by_neighbour(c) or
+                                        'None' in vals)
+        elif ' '.join(src(a1).split()) == NB:
+            saw_nb = True
+            ok = ok and guarded_by_neighbour(c)
+        else:
+            ok = False
+    ctx.require(ok and saw_nb, 'C09.R1', cs, calls[0] if calls else cs.node,
                 'the neighbour compared on a side is the assembly adjacent '
                 'on that side (1-based id in asm_adj; 0 = none)',
                 key=cs.full + ' | neighbour of side')
